@@ -24,7 +24,7 @@ PROPS = {
         "engines": [storm()],
         "rule": "each evaluation is one successfully executed marginfi instruction touching a program-held bank, judged by per-instruction conservation (vault delta >= delta of deposits-loans+fees minus derived allowance) and the cumulative bound; distinct = (instruction kind, mint decimals, token-program class, share-value-changed, inside-bracket, direction) tuples observed",
         "assumptions": COMMON_ASSUMPTIONS,
-        "floors": {"quick": {"ix_ok/Deposit": 500, "ix_ok/Withdraw": 200, "ix_ok/Borrow": 100, "ix_ok/Repay": 100, "ix_ok/AccrueInterest": 100, "ix_ok/CollectFees": 50}},
+        "floors": {"quick": {"scen.deleverage_repay_all_committed": 5, "ix_ok/Deposit": 500, "ix_ok/Withdraw": 200, "ix_ok/Borrow": 100, "ix_ok/Repay": 100, "ix_ok/AccrueInterest": 100, "ix_ok/CollectFees": 50}},
     },
     "C02": {
         "engines": [storm()],
@@ -78,7 +78,7 @@ PROPS = {
         "engines": [storm("scen")],
         "rule": "each evaluation is one receivership start/end instruction or one committed receivership transaction: reference maintenance health at start/end, seized vs repaid (equity values) against the premium limit located by bisection, transaction shape, surviving markers; distinct = (small account, #assets, #liabs, seized>0, repaid>0) and committed shapes",
         "assumptions": COMMON_ASSUMPTIONS + ["'none via CPI' is applied to start and end (what the program checks); see DESIGN 4 C10"],
-        "floors": {"quick": {"C10.brackets_started": 50, "C10.brackets_committed": 5, "scen.receivership_boundary_found": 5, "scen.receivership_price_boundary_found": 8}},
+        "floors": {"quick": {"scen.receivership_over_reduce_only_collateral": 30, "C10.brackets_started": 50, "C10.brackets_committed": 5, "scen.receivership_boundary_found": 5, "scen.receivership_price_boundary_found": 8}},
     },
     "C11": {
         "engines": [storm()],
